@@ -13,7 +13,8 @@ hashes; all eight Shelley shapes and both stake shapes (`Addr` has exactly these
 
 Theorems: `varuint_roundtrip` (+ `varuint_length_le`), `pointer_roundtrip`, `header_spec`,
 `address_roundtrip` (bytes), `hex_roundtrip`, `bech32_roundtrip` (under the codec law
-`Lawful`), `hrp_matches_network`, `display_fromStr_roundtrip`.
+`Lawful`), `hrp_matches_network`, `bech32_prefix_matches_network` (text level, for the executable
+bech32 of the model), `display_fromStr_roundtrip`.
 -/
 namespace PallasVerif.Props.C18
 open PallasVerif.Address
@@ -388,6 +389,24 @@ theorem display_fromStr_roundtrip (c : Bech32) (hc : Lawful c) (b58 : List Char 
         | other x => rfl
     simp [fromStr, Addr.display, hb, fromBech32, h1, h2, hex_roundtrip a h]
 
+/-! ## bech32 text (the executable bech32 of the model, tied to the `bech32` crate by the stream) -/
+
+/-- the encoded text starts with the human-readable part and the separator -/
+theorem b32_text_prefix (hrp : String) (bytes : Bytes) :
+    hrp.toList ++ ['1'] <+: b32Encode hrp bytes := by
+  unfold b32Encode
+  exact List.prefix_append _ _
+
+/-- the bech32 *text* of a mainnet / testnet address starts with the CIP-19 prefix of its kind and
+    network followed by the separator `1` -/
+theorem bech32_prefix_matches_network (a : Addr) (h : CanonNet a.network)
+    (hm : isMainOrTest a.network) :
+    ∃ hrp s, specHrp (isStake a) a.network.value.toNat = some hrp ∧
+      a.toBech32 realBech32 = .ok s ∧ hrp.toList ++ ['1'] <+: s := by
+  obtain ⟨hrp, h1, h2⟩ := toBech32_ok realBech32 a hm
+  refine ⟨hrp, _, ?_, h2, b32_text_prefix hrp a.toVec⟩
+  rw [← hrp_matches_network a h, h1]; rfl
+
 /-! ## Non-vacuity -/
 
 def h28 (b : UInt8) : Hash28 := ⟨List.replicate 28 b, by simp⟩
@@ -411,5 +430,9 @@ example : fromBytes (0x61 :: List.replicate 27 0) = .err .invalidLength := by de
 /-- outside the quantifier (`Other(16)`): the network nibble spills into the type id -/
 example : (Addr.shelley (.other 16) (.key (h28 1)) .null).toHeader = 0x70 := by decide
 example : ¬ CanonNet (.other 0) ∧ ¬ CanonNet (.other 16) := by decide
+
+/-- BIP-173 test vector, and one round trip of the executable codec -/
+example : b32Encode "a" [] = "a12uel5l".toList := by decide
+example : b32Decode (b32Encode "a" [0x61, 0]) = some ("a", [0x61, 0]) := by decide +kernel
 
 end PallasVerif.Props.C18
